@@ -86,6 +86,9 @@ def run_cases(ctx, res, cases, inputs, stats, rng):
         stats["guarded"] += int(guarded)
         if devs:
             res.nontrivial.add(common.canon_key([p, i]))
+            if len(devs) == 2 and len(res.samples) < 3:
+                res.sample(dict(kind="lattice", method=mname, deviations=[list(d) for d in devs],
+                                kw=vc.jsonable_kw(kw), input=i, model=mo, real=real))
         rname = real.split(":")[0]
         # anything that is not a documented rejection / a TypeError for a foreign keyword / a result is internal
         # (a TypeError is clean only when it is Python's own "unexpected keyword argument")
@@ -225,7 +228,7 @@ def run(ctx):
         for a, b in pairs:
             cases.append((method, [a, b]))
             stats["pairs"] += 1
-        for _ in range(ctx.n(40, 600)):
+        for _ in range(ctx.n(40, 300)):
             k = int(rng.integers(3, 7))
             idx = rng.permutation(len(devs))[:k]
             chosen, seen = [], set()
@@ -237,11 +240,10 @@ def run(ctx):
             stats["deeper"] += 1
     run_cases(ctx, res, cases, inputs, stats, rng)
     res.exhaustive = ctx.tier == "thorough"
-    oracle(ctx, res, stats, ctx.rng(2), ctx.n(14, 300))
+    oracle(ctx, res, stats, ctx.rng(2), ctx.n(14, 120))
     targeted(ctx, res, stats)
-    res.sample(dict(kind="lattice", method="vg", deviation=["mbl", "bad"], model="ValueError:minBranchLength"))
-    res.sample(dict(kind="lattice", method="io", deviation=["rate", "bad"], model="unvalidated"))
     res.sample(dict(kind="oracle", outcomes=stats["oracle_outcomes"]))
+    res.sample(dict(kind="targeted", outcomes=stats.get("targeted")))
     res.rule = ("B: every single deviation and (thorough: every; quick: a random sample of) pairwise deviations from a valid "
                 "call, for each of the three methods, over 19 parameter classes and 4 input facts, plus random 3-6-fold "
                 "deviations; model outcome (exception type + guard site, or result shape) vs the real date(). "
